@@ -274,5 +274,5 @@ func checkC06(w *World, r *Report) {
 	r.Sub(checkC10, "AL-DOM")
 	r.SubWhere(func(w *World, r *Report) { checkC01(w, r) }, func(_, c string) bool {
 		return strings.HasPrefix(c, "PlaceBid:") && !strings.Contains(c, "BidTypeBatch")
-	} /* every bid type a fixed price auction can be handed */, "PAIR-RESERVE")
+	}, /* every bid type a fixed price auction can be handed */ "PAIR-RESERVE")
 }
